@@ -1,6 +1,8 @@
 /- C02 — property theorems (see docs/C02.md for the reading of each clause). -/
 import TornadoModel.C02.Lemmas
 import TornadoModel.C02.Framing
+import TornadoModel.C02.Final
+import TornadoModel.C02.Writes
 namespace TornadoModel.C02
 open TornadoModel.C02.Spec
 
@@ -44,10 +46,9 @@ theorem undelimited_closes_at_finish (rq : Req) (code : Nat) (h : HMap)
     | cons x xs ih => intro c0 h0; exact ih _ (by rw [(cWrite_keeps c0 x).1]; exact h0)
   exact cFinish_closes c' (this chunks c hdis)
 
-/-- **response_wellframed** (stretch, tie-only): the full wire-level statement.  `Spec.clientParse` applied to
-    the bytes of any program run either returns exactly one response with nothing left over, or the run was
-    aborted by the framework (stream closed) and the client sees a truncated message.  Checked on every case
-    by the oracle; not proved (it needs the header-name canonicity lemmas for `lookup` vs `hhas`). -/
+/-- **response_wellframed** as first stated (no side condition on header *values* or on the abstract request
+    parameters).  False for the model — see `response_wellframed_refuted`; the true statement is
+    `response_wellframed_partial` / `response_wellframed_exact`. -/
 def response_wellframed_goal : Prop :=
   ∀ (rq : Req) (prog : List Op),
     (∀ op ∈ prog, match op with
@@ -59,6 +60,123 @@ def response_wellframed_goal : Prop :=
     | .ok (_, rest) => rest = []
     | .incomplete => s.conn.closed = true
     | .malformed => False
+
+/-- witness: `set_header("Content-Length", "a")` on a keep-alive GET.  `parse_int` raises inside
+    `write_headers` after `_headers_written` was set, the error path's `finish()` then writes nothing, and the
+    connection stays open: the client reads nothing and is not told the response is over. -/
+theorem response_wellframed_refuted : ¬ response_wellframed_goal := by
+  intro h
+  have h1 := h { method := .get, v11 := true, conn := .absent } [.setHeader nCL [97]]
+    (by intro op hop; simp only [List.mem_singleton] at hop; subst hop; decide)
+  have e1 : clientParse ((({ method := .get, v11 := true, conn := .absent } : Req).method) == Method.head)
+      (wire (run { method := .get, v11 := true, conn := .absent } [.setHeader nCL [97]]).conn)
+      (run { method := .get, v11 := true, conn := .absent } [.setHeader nCL [97]]).conn.closed = .incomplete := by
+    decide
+  have e2 : (run { method := .get, v11 := true, conn := .absent } [.setHeader nCL [97]]).conn.closed = false := by
+    decide
+  simp only [e1] at h1
+  rw [e2] at h1
+  cases h1
+
+/-- **response_wellframed_exact** (principal theorem): for every request shape and every handler program whose
+    ops satisfy the decidable side condition `opOK` (three-digit statuses, token names, no handler-set
+    `Transfer-Encoding`, a handler-set `Content-Length` is one decimal number) and whose abstract
+    `Server`/`Date`/`Etag` values are valid header values (`reqOK`), the strict client applied to the bytes the
+    model emits (with `eof` = the stream's closed flag)
+
+    * returns **exactly one response with nothing left over**, whose status, reason and header lines are the
+      ones `write_headers` serialised (ghost `head`), whose body is the concatenation of the chunks the
+      connection accepted (ghost `sent`) — **empty for HEAD / 1xx / 204 / 304** — delimited by
+      no-body / chunked / Content-Length / close (`delimOf`); or
+    * reports a truncated message *and the stream is closed*, which happens only when the handler declared a
+      Content-Length larger than what it wrote (`ShortBody`); or
+    * sees no bytes at all on a closed stream (`write_headers` itself aborted on an over-long first chunk).
+
+    Never `malformed`, never trailing bytes, never an open connection with an unfinished message. -/
+theorem response_wellframed_exact (rq : Req) (prog : List Op) (hrq : reqOK rq = true)
+    (hops : ∀ op ∈ prog, opOK op = true) :
+    let s := run rq prog
+    (wire s.conn = [] ∧ s.conn.closed = true ∧ s.conn.head = none) ∨
+    ∃ code hs, s.conn.head = some (code, hs) ∧
+      (clientParse (rq.method == .head) (wire s.conn) s.conn.closed = .ok (expectedResp rq s.conn code hs, [])
+       ∨ (clientParse (rq.method == .head) (wire s.conn) s.conn.closed = .incomplete ∧ s.conn.closed = true
+           ∧ nbOf rq code = false ∧ ShortBody s.conn hs)) := by
+  intro s
+  rcases parse_Done rq s (run_Done rq hrq prog hops) with a | ⟨code, hs, h1, _, h2⟩
+  · exact Or.inl a
+  · exact Or.inr ⟨code, hs, h1, h2⟩
+
+/-- **response_wellframed_partial**: the statement of `response_wellframed_goal` under the side conditions
+    `reqOK` / `opOK`. -/
+theorem response_wellframed_partial (rq : Req) (prog : List Op) (hrq : reqOK rq = true)
+    (hops : ∀ op ∈ prog, opOK op = true) :
+    let s := run rq prog
+    match clientParse (rq.method == .head) (wire s.conn) s.conn.closed with
+    | .ok (_, rest) => rest = []
+    | .incomplete => s.conn.closed = true
+    | .malformed => False := by
+  intro s
+  rcases response_wellframed_exact rq prog hrq hops with ⟨a1, a2, _⟩ | ⟨code, hs, _, h | ⟨h, hc, _⟩⟩
+  · show match clientParse (rq.method == .head) (wire s.conn) s.conn.closed with
+      | .ok (_, rest) => rest = [] | .incomplete => s.conn.closed = true | .malformed => False
+    rw [a1, clientParse_nil]; exact a2
+  · show match clientParse (rq.method == .head) (wire s.conn) s.conn.closed with
+      | .ok (_, rest) => rest = [] | .incomplete => s.conn.closed = true | .malformed => False
+    rw [h]
+  · show match clientParse (rq.method == .head) (wire s.conn) s.conn.closed with
+      | .ok (_, rest) => rest = [] | .incomplete => s.conn.closed = true | .malformed => False
+    rw [h]; exact hc
+
+/-- **HEAD / 1xx / 204 / 304 responses carry no body** (wire level): whatever the program writes, flushes or
+    finishes with, the bytes on the wire are exactly the serialised head. -/
+theorem nobody_wire_is_head (rq : Req) (prog : List Op) (hrq : reqOK rq = true)
+    (hops : ∀ op ∈ prog, opOK op = true) (code : Nat) (hs : List (C06.Str × C06.Str))
+    (hh : (run rq prog).conn.head = some (code, hs))
+    (hnb : (rq.method == .head || noBodyStatus code) = true) :
+    wire (run rq prog).conn = headBytes code hs :=
+  nobody_Done rq _ (run_Done rq hrq prog hops) code hs hh hnb
+
+/-- **body_is_writes**: the link from the wire back to the *program text*.  For every exception-free ("clean")
+    program — `opClean`: body-carrying 3-digit statuses, header values passing `_VALID_HEADER_CHARS` (and
+    `HTTPHeaders.add`'s checks), token names other than `Transfer-Encoding` / `Content-Length` — on a non-HEAD
+    request without an `If-None-Match` hit, whatever the interleaving of writes and flushes and whichever
+    delimitation the framework picks (automatic Content-Length, chunked, close), the strict client reads
+    **exactly one response, nothing left over**, whose status is the one in force at the first flush/finish
+    (`headStatus`) and whose body is the concatenation of the program's writes up to and including the first
+    `finish` (`bodyOf`). -/
+theorem body_is_writes (rq : Req) (prog : List Op) (hrq : reqOK rq = true) (hm : rq.method ≠ .head)
+    (hinm : rq.inmMatch = false) (hops : ∀ op ∈ prog, opClean op = true) :
+    ∃ hs d, clientParse (rq.method == .head) (wire (run rq prog).conn) (run rq prog).conn.closed
+      = .ok (⟨headStatus 200 prog, reason (headStatus 200 prog), hs, bodyOf prog, d⟩, []) :=
+  run_clean_parse rq hrq hm hinm prog hops
+
+/-! non-vacuity of `body_is_writes`: a program mixing every clean op kind, and what the two functions say of it -/
+example : ∀ op ∈ [Op.write [97], .setStatus 404, .setHeader nCT [120], .addHeader nEtag [34, 34], .clearHeader nCT,
+      .flush, .write [98], .finish (some [99]), .write [100]], opClean op = true := by decide
+example : bodyOf [Op.write [97], .setStatus 404, .flush, .write [98], .finish (some [99]), .write [100]] = [97, 98, 99]
+    ∧ headStatus 200 [Op.write [97], .setStatus 404, .flush, .setStatus 500, .finish none] = 404 := by decide
+
+/-! non-vacuity of the side conditions and of each outcome of `response_wellframed_exact` -/
+example : reqOK { method := .get, v11 := true, conn := .absent } = true
+    ∧ ∀ op ∈ [Op.setStatus 404, .setHeader nCL [51], .addHeader nCT [97], .write [97, 98, 99], .flush, .finish none],
+        opOK op = true := by decide
+-- chunked, Content-Length, close-delimited and body-less responses all occur
+example : delimOf { method := .get, v11 := true, conn := .absent }
+    (run { method := .get, v11 := true, conn := .absent } [.write [97], .flush, .write [98]]).conn 200 [] = .chunked := by decide
+example : (run { method := .get, v11 := true, conn := .absent } [.write [97], .flush, .write [98]]).conn.sent = [[97], [98]] := by decide
+example : (run { method := .get, v11 := false, conn := .keepAlive } [.write [97], .flush]).conn.closed = true := by decide
+-- the `ShortBody` outcome occurs (declared 3, wrote 1): truncated and closed
+example : clientParse false (wire (run { method := .get, v11 := true, conn := .absent }
+      [.setHeader nCL [51], .write [97]]).conn) true = .incomplete
+    ∧ (run { method := .get, v11 := true, conn := .absent } [.setHeader nCL [51], .write [97]]).conn.closed = true := by
+  decide
+-- the "nothing on the wire" outcome occurs (declared 0, first flush carries 1 byte)
+example : wire (run { method := .get, v11 := true, conn := .absent } [.setHeader nCL [48], .write [97]]).conn = []
+    ∧ (run { method := .get, v11 := true, conn := .absent } [.setHeader nCL [48], .write [97]]).conn.closed = true := by
+  decide
+-- a 204 with a flushed body: hypotheses of `nobody_wire_is_head` hold
+example : (run { method := .get, v11 := true, conn := .absent } [.setStatus 204, .flush, .write [97]]).conn.head.map (·.1)
+    = some 204 := by decide
 
 /-! non-vacuity / sanity on concrete programs (tests, not theorems) -/
 example : (run { method := .get, v11 := false, conn := .keepAlive } [.write [97], .flush, .write [98]]).conn.closed = true := by decide
